@@ -90,11 +90,16 @@ StreamBad(ms) ==
        logs |-> <<>>, lvl |-> "", turns |-> <<>>, nin |-> 1, cancel |-> 0, cast |-> "eq", meta |-> "none"] :
         m \in ms, pm \in {"ok", "mismatch"}, i \in {"error", "panic", "nil"} }
 Lg1 == { <<>>, << <<"INFO", "m1">> >> }
-QuickCalls == StreamOK({"prod", "exch"}, 2, {0, 2, 3}, {"eq", "bad"}, {"none", "user", "dup"}, Lg1)
+\* methods that DECLARE a header but whose init handler returns none (StreamResult.Header = nil):
+\* no header stream; the init handler's logs travel on the main stream like those of a plain method
+NoHdr(S) == { [c EXCEPT !.hdr = FALSE] : c \in S }
+NoHdrCalls == NoHdr(StreamOK({"prodh", "exchh", "dynp"}, 1, {1, 3}, {"eq"}, {"none"}, { << <<"INFO", "m1">> >> }))
+QuickCalls == NoHdrCalls \cup StreamOK({"prod", "exch"}, 2, {0, 2, 3}, {"eq", "bad"}, {"none", "user", "dup"}, Lg1)
               \cup StreamOK({"prodh", "exchh", "dynp"}, 1, {1, 3}, {"castable"}, {"collide"}, {<<>>})
               \cup StreamBad({"prod", "exchh"})
 SmallCalls == StreamOK({"prod", "exch"}, 1, {0, 2}, {"eq"}, {"none"}, {<<>>}) \cup StreamBad({"prod"})
-FullCalls == StreamOK({"prod", "prodh", "exch", "exchh", "dynp", "dynx"}, 2, {0, 1, 2, 3}, {"eq", "castable", "bad"},
+FullCalls == NoHdrCalls \cup
+             StreamOK({"prod", "prodh", "exch", "exchh", "dynp", "dynx"}, 2, {0, 1, 2, 3}, {"eq", "castable", "bad"},
                       {"none", "user", "collide", "dup"}, Lg1)
              \cup StreamBad({"prod", "prodh", "exch", "exchh", "dynp", "dynx"})
 \* streams whose data batches are externalized (ExtK = 9): plain, annotated and logged emits,
